@@ -198,6 +198,14 @@ Print Assumptions C03_feature_lookup_null_data_refuted.
     Fails (broken obligation) while one of the defects above is still in /repo. *)
 Definition c03_switches (b : behaviour) : bool * bool * bool * bool :=
   (b_df_checks b, b_esrc_by_name b, b_uuid_name_links b, b_feature_null_guard b).
+
+(** the hand copy of [util::looksLikeUUID] in the model is the definition the translator regenerates from
+    src/util/util.cpp on every run *)
+Require NixV.Store.GenBridge NixV.Gen.GenUtil.
+Theorem C03_looksLikeUUID_is_generated : forall s, NixV.Store.Db.looksLikeUUID s = NixV.Gen.GenUtil.looksLikeUUID s.
+Proof. exact NixV.Store.GenBridge.db_looksLikeUUID_is_generated. Qed.
+Print Assumptions C03_looksLikeUUID_is_generated.
+
 Theorem C03_current_is_repaired : c03_switches current_behaviour = c03_switches repaired.
 Proof. reflexivity. Qed.
 Print Assumptions C03_current_is_repaired.
